@@ -218,20 +218,51 @@ class C05(Prop):
             "lengths that are no whole number of elements). 8% of the cases are moved OUTSIDE the quantifier (position 0, negative, "
             "beyond the size, recorded twice, two positions on one pixel, smaller / empty / negative size, nothing at all): "
             "implementation vs model only, the specification is not evaluated. "
+            "EXTENSION ROUND (drawn after the main case from a stream of their own): EVERY case is imported through BOTH parsers of "
+            "ImzML.from_file (ElementTree, the default of the public API, and use_fast_parse=True) and every observation of either object "
+            "is judged against the same Lean model and specification; all calls of a case are made on ONE object per parser (history): "
+            "the four observation points, in 40% of the cases in a shuffled order, and in 55% one or two further calls - extractions "
+            "with other targets / widths / argument types (nominal integer masses next to recorded peaks, targets on peaks, chains of "
+            "adjacent windows m, m+w, .. with a recorded peak exactly on a shared edge, 100-400 unsorted targets with duplicates, the "
+            "main targets repeated, one window holding every peak), the same extraction again, extract_tic / mass_range again, "
+            "load(path | object, ibd, targets[, ppm]). Argument types: targets as Python float / int, numpy float64 / float32 / int64 "
+            "scalar, 0-d array, list / tuple of floats or ints, mixed list, float64 / float32 / int32 / int64 ndarray, strided view; "
+            "width as float / int / numpy.float64 / numpy.float32, by keyword or positionally (the model is given the exact values "
+            "of what is passed). 35% of the eligible exact cases get 1-2 peaks per spectrum that dominate the window contents by more "
+            "than 2^53 (2^54..2^70, 1e17..1e30; float64 intensities also 2^200, 1e100..1e300) below, above, between the windows and "
+            "exactly on an (excluded) upper edge, window contents staying small integers (tolerance 0). 30% of the files with >= 2 "
+            "spectra get a forced pattern of stored / absent TIC along the file (stored-then-absent, absent-then-stored, "
+            "alternating, first / last only). Pixel coverage: first / last pixel removed, a single recorded pixel, 1xN / Nx1 / "
+            "grids up to 40 long, 12x12, 100-400 long images with 1-6 recorded pixels. 15% of the dyadic cases are rescaled by "
+            "2^-6..2^8 (masses 1.5..41000). 4%: spectra of 40-3000 peaks. The .ibd under another name in another directory passed "
+            "as external_binary, str instead of Path arguments, direct reads through one open BufferedReader. 2%: a spectrum "
+            "without peaks (outside the quantifier, implementation vs model). "
             "non-trivial = at least one of the named window classes, a sparse/size-absent image or an off: class; distinct by canonical case hash")
     trusted = ["np.searchsorted on a sorted array returns #{p | a[p] < v}; np.add.reduceat, np.append, np.arange as documented; "
                "np.frombuffer / file seek+read and IEEE-754 decoding are MODELLED (getBinaryData, ieeeVal) and compared element by element "
                "(bit patterns and exact values) with what get_binary_data returns on the written file",
                "exact stream: m/z k/2^14 < 256 and integer intensities < 2^11 so float32/float64 sums and the float window edges "
                "of absolute widths are exact; 32-bit-edge class: m/z < 1024 stored as float32, integer intensities < 2^11, sums exact; "
-               "ppm widths, the real stream and every absolute width whose float64 edges m -/+ w/2 are not exact: cases with a peak "
-               "within 1e-9 relative of a window edge are undetermined; real stream: sums compared with tolerance 8*n*eps*total",
+               "ppm widths, the real stream and every absolute width whose float64 edges m -/+ w/2 are not exact: an output ELEMENT "
+               "(pixel, window) whose spectrum has a peak within 1e-9 relative of an edge of that window is undetermined and not "
+               "compared (1e-6 when targets or width are float32, which makes NumPy compute the edges in float32); everything else of "
+               "the case is compared; real stream: sums compared with tolerance 8*n*eps*total",
+               "exact stream: a window sum (a summed TIC, a bin) is compared with tolerance 0 whenever every order of float summation "
+               "gives the exact sum (a single value, or integers with sum of absolute values < 2^24 / 2^53); a window that itself "
+               "holds a dominant peak next to small ones is rounding-determined for any implementation: 8*n*eps*sum|it|",
+               "the fast parser is given documents in the line layout it is written for (harness/gen_imzml.simple_doc); a document "
+               "without any <spectrum> makes it raise KeyError (DESIGN 9.5, C17): recorded as a feature, the XML parser is judged alone",
                "xml.etree.ElementTree parses the synthetic document as written (position, size, offset, encoded length, element type); "
                "float(text) of the stored TIC (the harness hands the model the parsed value)"]
     assumptions = ["the specification is evaluated only where the quantifier holds: every position recorded once, 1-based and inside the "
                    "image; spectra non-empty with strictly increasing m/z and as many intensities (decided by the driver, `hyp`); outside it "
                    "the implementation is compared with the mechanism model only (raising vs not raising, shape, NaN pattern, values; the "
                    "exception class and the value of a pixel two positions share are not compared)",
+                   "target_masses may be anything numpy.atleast_1d turns into a 1-d numeric array (the annotation says ndarray | float; "
+                   "lists, tuples, Python ints and integer arrays are what callers pass for nominal masses); the target masses of a call "
+                   "are the exact values of the elements passed (a float32 array passes float32 values)",
+                   "the Outcome flag `undetermined` is no longer set: undetermined elements are skipped one by one and counted by the "
+                   "feature `undetermined-element:...`, so that the rest of such a case (TIC, range, bins, other windows) is still judged",
                    "mass_range is checked as a bound (low <= every m/z <= high); bin edges returned by binned_masses are accepted when they "
                    "step by the requested width and cover the recorded range, the per-bin sums are then checked against those edges"]
 
@@ -386,6 +417,14 @@ class C05(Prop):
                     if rng.random() < 0.7:
                         s["tic"] = rng.choice(["0", "7.25", "1536.0", "1e+17"])
                     changed = True
+        # 3b. OUTSIDE the quantifier (spectra of 1..n peaks): a recorded spectrum without any peak (zero-length arrays);
+        # implementation vs model only: zeros in the mass image, 0 in the TIC image, mass_range / binned_masses raise
+        if sp and not offd and not case["shared"] and rng.random() < 0.02:
+            t = rng.choice(sp)
+            t["mz"], t["it"] = [], []
+            if rng.random() < 0.5:
+                t["tic"] = None
+            changed = True
         # 4. stored / absent TIC along the file, in every order
         if len(sp) >= 2 and rng.random() < 0.3:
             n = len(sp)
@@ -1375,6 +1414,8 @@ class C05(Prop):
                 off.add("off:negative-size")
             if any(v for row in (rep["aliased"] or []) for v in row):
                 off.add("off:two-positions-one-pixel-value-not-compared")
+            if any(not mz for mz, _ in dvals):
+                off.add("off:spectrum-without-peaks")
             f.add("outside-the-quantifier")
         if did_reads:
             f.add("direct-read")
